@@ -24,7 +24,15 @@ func main() {
 	replay := flag.String("replay", "", "replay file")
 	only := flag.String("only", "", "run only this scenario")
 	cpuprof := flag.String("cpuprofile", "", "write a CPU profile")
+	c08child := flag.String("c08child", "", "internal: C08 child mode")
+	c08dir := flag.String("c08dir", "", "internal")
+	c08kill := flag.Int("c08kill", -1, "internal")
+	c08clock := flag.Int64("c08clock", 0, "internal")
 	flag.Parse()
+	if *c08child != "" {
+		props.C08Child(*c08child, *c08dir, *c08kill, *c08clock)
+		return
+	}
 	if *cpuprof != "" {
 		f, _ := os.Create(*cpuprof)
 		pprof.StartCPUProfile(f)
